@@ -4,8 +4,9 @@ Core Lean only.  The `CodecWriter` is an abstract parameter (`CodecW`); its
 contract appears as hypotheses of the theorems in `Props/C13.lean`.
 
 Written for the REPAIRED code: `advancePastLeadingZeroes`
-(fixes/C13-advance-past-zeroes.patch) and `useResource`'s bound
-(fixes/C13-useresource-bound.patch).
+(fixes/C13-advance-past-zeroes.patch), `useResource`'s bound
+(fixes/C13-useresource-bound.patch) and `Close` with a nil `CodecWriter`
+(fixes/C13-nil-codecwriter-close.patch).
 -/
 import WuffsVerif.Model.Rac.ChunkWriter
 
@@ -40,6 +41,8 @@ def startingTargetDChunkSize (cChunkSize : Nat) : Nat := 2 * cChunkSize
 structure Writer where
   -- exported fields (configuration)
   nilWriter : Bool := false
+  /-- `w.CodecWriter == nil` -/
+  nilCodecWriter : Bool := false
   indexAtStart : Bool := false
   tempKind : Nat := 0
   cPageSize : Nat := 0
@@ -67,6 +70,7 @@ def init (cw : CodecW) (w : Writer) : Writer × Option Err :=
   | none =>
   if w.inited then (w, none) else
   if w.nilWriter then ({ w with err := some .invalidWriter }, some .invalidWriter) else
+  if w.nilCodecWriter then ({ w with err := some .invalidCodecWriter }, some .invalidCodecWriter) else
   let w := { w with resourcesIDs := List.replicate w.resourcesData.length 0 }
   let (w, e) : Writer × Option Err :=
     if w.dChunkSizeCfg > 0 then ({ w with dChunkSize := w.dChunkSizeCfg }, none)
@@ -244,8 +248,11 @@ def closeStep3 (w : Writer) : Writer :=
     { w with chunkWriter := c, err := e }
   else w
 
-/-- `if err := w.CodecWriter.Close(); w.err == nil { w.err = err }` -/
+/-- `if w.CodecWriter == nil {} else if err := w.CodecWriter.Close(); w.err == nil { w.err = err }`
+(REPAIRED, fixes/C13-nil-codecwriter-close.patch: the pinned code called `Close` on the nil
+interface and panicked, although `initialize` had just recorded `errInvalidCodecWriter`). -/
 def closeStep4 (cw : CodecW) (w : Writer) : Writer :=
+  if w.nilCodecWriter then w else
   if w.err.isNone then { w with err := cw.close } else w
 
 /-- `Close()` -/
